@@ -119,9 +119,24 @@ def run_impl(sc):
                 return len(x)
             return to_ticks(x) if isinstance(x, float) else int(x)
 
+        def seen_times(sensor):
+            # the model reports, after the values handed to a callback of the periodic sensor, how long the time series is at that moment
+            return [len(sensor.data['time'])] if 'time' in sensor.data else []
+
+        def misaligned(sensor, time):
+            # what a callback sees when it is notified: every series of the sensor, the time series included, already holds this
+            # measurement (they 'stay aligned with each other', C19)
+            d = sensor.data
+            lens = sorted({len(v) for v in d.values()})
+            if len(lens) > 1:
+                return 'the series of the sensor have lengths %s' % lens
+            if 'time' in d and (not d['time'] or d['time'][-1] != time):
+                return 'the time series ends with %s' % (d['time'][-1] if d['time'] else 'nothing')
+            return None
+
         class MyCms(Cms):
             def on_sense(self, sensor, time, data):
-                calls.append([sensors.index(sensor), 100, to_ticks(time), [val(d) for d in data]])
+                calls.append([sensors.index(sensor), 100, to_ticks(time), [val(d) for d in data] + seen_times(sensor), misaligned(sensor, time)])
         cms = MyCms(None, 'cms')
 
         cb_cache = {}
@@ -132,7 +147,7 @@ def run_impl(sc):
                 return cb_cache[k]
 
             def cb(sensor, time, data):
-                calls.append([sensors.index(sensor), k, to_ticks(time), [val(d) for d in data]])
+                calls.append([sensors.index(sensor), k, to_ticks(time), [val(d) for d in data] + seen_times(sensor), misaligned(sensor, time)])
             cb._verif_cb = k
             cb_cache[k] = cb
             return cb
@@ -286,6 +301,10 @@ def monitor_c19(sc, obs):
                     for t, x in zip(o['ptime'], news):
                         if t in was and was[t] != x and not v:
                             bad('C19/stored-value-changed', 'op %d %s: the measurement of probe %d taken at %d was %d and now reads %d' % (i, o['op'], j, t, was[t], x))
+    for c in (obs[-1]['calls'] if obs else []):
+        if len(c) > 4 and c[4]:
+            bad('C19/aligned-at-notification', 'callback %d of sensor %d notified of the measurement at %d: %s' % (c[1], c[0], c[2], c[4]))
+            break
     if t0 is None:
         return v
     last = obs[-1]
